@@ -349,6 +349,30 @@ def rule_inv_arith(ctx):
     return r
 
 
+def _const_str_arg(b, t):
+    """The string literal passed to a panic / expect call (directly or through one local)."""
+    for a_ in t['args']:
+        if a_.get('k') == 'const' and isinstance(a_.get('text'), str):
+            return a_['text']
+        l_ = op_local(a_)
+        if l_ is not None and (a_.get('pty') or b.local_ty(l_)['s']) in ('&str', "&'static str"):
+            # `_7 = &(*_8); _8 = const "..."`
+            for _hop in range(3):
+                ds_ = b.defs().get(l_, [])
+                if len(ds_) != 1 or ds_[0][0] != 'assign':
+                    break
+                rv_ = ds_[0][3]['rv']
+                if rv_['rv'] == 'use' and rv_['op'].get('k') == 'const' and isinstance(rv_['op'].get('text'), str):
+                    return rv_['op']['text']
+                if rv_['rv'] == 'use' and op_local(rv_['op']) is not None:
+                    l_ = op_local(rv_['op'])
+                elif rv_['rv'] == 'ref':
+                    l_ = rv_['pl']['l']
+                else:
+                    break
+    return ''
+
+
 def rule_inv_panic(ctx):
     r = RuleResult('INV-PANIC', 'complete inventory of panic-capable call sites (panic!/unreachable!/assert!/begin_panic, Option/Result unwrap/expect); each is '
                    'classified: lock poisoning (only after a panic of user code while the lock was held), the documented builder assert, an '
@@ -359,6 +383,7 @@ def rule_inv_panic(ctx):
     want = {e['key']: e for e in table['sites']}
     found = Counter()
     where = {}
+    mkey = {}
     auto = Counter()
     # unwrap facts per function via the abstract interpreter
     proved = {}
@@ -394,7 +419,9 @@ def rule_inv_panic(ctx):
                 auto['LOCK-POISON'] += 1
                 r.instance(function=nid, call=last, on=ty[:60], discharged='LOCK-POISON')
                 continue
-            if is_panic and nid in _validate_roles(ctx):
+            pmsg = _const_str_arg(b, t)
+            # the documented panic of build(): "time_to_live / time_to_idle is longer than 1000 years" (MUST-build-validate decides when it fires)
+            if is_panic and ('longer than 1000 years' in pmsg or nid in _validate_roles(ctx)):
                 auto['DOCUMENTED'] += 1
                 r.instance(function=nid, call=ext, discharged='DOCUMENTED (time_to_live / time_to_idle above 1000 years)')
                 continue
@@ -408,6 +435,9 @@ def rule_inv_panic(ctx):
             inner = ty[ty.find('<') + 1:].split('<')[0].split(',')[0].strip('&').replace('mut ', '').split('::')[-1].rstrip('>') if '<' in ty else ''
             if is_unwrap:
                 key = '%s|%s' % ('::'.join(ext.split('::')[-2:]), head + '<' + inner + '>')
+                if last == 'expect' and pmsg:
+                    # an `expect` is also identified by its message (the operand type changes when the code around it is made generic)
+                    mkey[key] = '%s|msg:%s' % ('::'.join(ext.split('::')[-2:]), pmsg[:60])
             else:
                 # panic!/unreachable!/assert!: keyed by the message (constant operand), crate-wide
                 msg = ''
@@ -420,8 +450,13 @@ def rule_inv_panic(ctx):
                 key = '%s|%s|%s' % (last, msg, '::'.join(x.strip('<') for x in mod_))
             found[key] += 1
             where[key] = (nid, t.get('line'))
+    msg_table = table.get('expect_messages', {})
     for key, n in sorted(found.items()):
         ent = want.get(key)
+        if ent is None and mkey.get(key) in msg_table and msg_table[mkey[key]] in want:
+            ent = dict(want[msg_table[mkey[key]]])
+            ent['reason'] = 'same expect (by message) as reviewed `%s`: %s' % (msg_table[mkey[key]], ent['reason'])
+            ent['count'] = max(ent.get('count', 1), n)
         nid, line = where[key]
         if ent is None:
             r.instance(site=key, count=n, discharged=None)
@@ -552,9 +587,34 @@ def rule_ptr_guarded_call(ctx):
     if len(unsafe_ops) < 3:
         raise CheckFailure('PTR-guarded-call: unsafe deque operations not found: %s' % sorted(unsafe_ops))
     n = 0
+    # a list operation that performs the membership test itself (`*_if_member`: every raw primitive it calls is guarded inside it) is safe
+    # to call unguarded; its own body is judged like a caller
+    prims = (R.move | R.unlink | R.free) & unsafe_ops
+    combos = sorted(u for u in unsafe_ops if u not in prims or (prog.callees(u) & unsafe_ops))
+    self_guarded = set()
+    for u in combos:
+        if not (prog.callees(u) & unsafe_ops):
+            continue
+        okall, seen = True, 0
+        try:
+            for p in ctx.symex(inline_depth=0, loop_visits=2).run(u):
+                for e in p.events:
+                    if e[0] == 'call' and e[1] in unsafe_ops and e[1] != u:
+                        seen += 1
+                        deq, node = e[2][0], e[2][1]
+                        g = any(v is True and isinstance(t, tuple) and t[0] == 'call' and t[1] in R.member and t[2][0] == deq and
+                                (t[2][1] == node or _same_ptr(t[2][1], node) or any(x == node for x in subterms(t[2][1]))) for t, v in p.conds)
+                        okall = okall and g
+        except PathLimit:
+            okall = False
+        if seen and okall:
+            self_guarded.add(u)
+            r.instance(operation=u, kind='membership-guarded list operation', inner_sites=seen, guarded_inside=True)
+    need_guard = unsafe_ops - self_guarded
     # closures are analysed in the context of the function that creates them (the iterator / Option adaptors run them in place)
     callers = sorted({(prog.bodies[c].root if prog.bodies[c].kind == 'closure' and prog.bodies[c].root else c)
-                      for u in unsafe_ops for c in prog.callers().get(u, ()) if not c.startswith('common::deque::')})
+                      for u in need_guard for c in prog.callers().get(u, ()) if not c.startswith('common::deque::')})
+    unsafe_ops = need_guard
     for c in callers:
         b = prog.bodies[c]
         try:
